@@ -101,9 +101,14 @@ def r1_guard(chk):
            'no test on the FAILED map dominates the putData call')
     if not guards:
         return
-    allg = [n for n in cfg.nodes if n.kind == 'test' and cfg.dominates(n, pn) and
-            (mentions_atom(n.expr, atoms, 'A') or mentions_atom(n.expr, atoms, 'B')) and
-            cfg.dominates(guards[0], n)]
+    def pure(n):
+        return all(eval_bool(n.expr, atoms, {'A': a_, 'B': b_}) is not None for a_ in (True, False) for b_ in (True, False))
+    before_put = set(n for n in cfg.nodes if pn in cfg.reach([n]))
+    allg = [n for n in cfg.nodes if n.kind == 'test' and cfg.dominates(guards[0], n) and
+            (mentions_atom(n.expr, atoms, 'A') or mentions_atom(n.expr, atoms, 'B')) and pure(n) and
+            (cfg.dominates(n, pn) or n not in before_put or cfg.dominates(guards[0], n) and n.lineno < pn.lineno)]
+    # tests inside the write loop (after putData of an earlier iteration) do not belong to the guard
+    allg = [n for n in allg if not cr.enclosing_loops(n.ast, r.fn) or n in guards]
     r._c09_guards = allg
     for a in (True, False):
         for b in (True, False):
